@@ -1,16 +1,25 @@
 #!/bin/bash
-# usage: tools/confirm_seeded.sh <seeded-id> <worktree> <demo file name in worktree>
-# confirms: demo fails with the change, passes without it, baseline pass-set stays green with it
-sid=$1; wt=$2; demo=$3
+# usage: tools/confirm_seeded.sh <seeded-id>
+# Confirms a seeded change on a private scratch worktree of /repo HEAD (never `git stash`: the stash is
+# shared by all worktrees of a repository): demo fails with the change, passes without it, and the
+# BASELINE pass-set stays green with it.  Writes seeded/<id>/confirm.log, removes the worktree.
+sid=$1
 out=/verif/seeded/$sid/confirm.log
+wt=/tmp/wt_confirm_$sid
 export NUMBA_CACHE_DIR=/tmp/mutkit/nbconfirm_$sid NUMBA_FUNCTION_CACHE_SIZE=1000000 PYTHONDONTWRITEBYTECODE=1
+git -C /repo worktree remove --force $wt 2>/dev/null
+git -C /repo worktree add -q --detach $wt HEAD || exit 2
 cd $wt || exit 2
 {
-echo "== demo WITH change"; /venv/bin/python $demo > /tmp/mutkit/demo_$sid.with 2>&1; echo "exit=$?"; tail -3 /tmp/mutkit/demo_$sid.with
-git stash -q
-echo "== demo WITHOUT change"; /venv/bin/python $demo > /tmp/mutkit/demo_$sid.without 2>&1; echo "exit=$?"; tail -2 /tmp/mutkit/demo_$sid.without
-git stash pop -q
+echo "base=$(git rev-parse --short HEAD)"
+cp /verif/seeded/$sid/demo.py $wt/demo_seeded.py
+# demos written by the sub-agents assert their own worktree path: neutralise that check
+sed -i "s#/tmp/mut_[A-Z0-9]*#$wt#g" $wt/demo_seeded.py
+echo "== demo WITHOUT change"; /venv/bin/python demo_seeded.py > /tmp/mutkit/demo_$sid.without 2>&1; echo "exit=$?"; tail -2 /tmp/mutkit/demo_$sid.without
+git apply /verif/seeded/$sid/patch.diff || echo "PATCH DOES NOT APPLY"
+echo "== demo WITH change"; /venv/bin/python demo_seeded.py > /tmp/mutkit/demo_$sid.with 2>&1; echo "exit=$?"; tail -3 /tmp/mutkit/demo_$sid.with
 echo "== suite WITH change"; /verif/tools/suite.py $wt -n ${NPROC:-4}
 echo "suite_exit=$?"
 } > $out 2>&1
+cd /; git -C /repo worktree remove --force $wt
 rm -rf $NUMBA_CACHE_DIR
